@@ -610,6 +610,28 @@ func c12Siblings(r *an.Run, m *runModel) {
 		}
 		r.Check(good, short(f)+"|format-then-process", f.Pos(), "%s prints with format.Node and hands exactly that buffer to imports.Process", short(f))
 	}
+	// the command runs imports.Process on every rewritten file unless --skip-import-processing is given; the
+	// library has no such option, so every byte slice it hands back for a rewritten file is what
+	// imports.Process returned (a fast path around it returns differently grouped imports than the command writes)
+	{
+		src := paramAt(api, 1)
+		var leaves []ssa.Value
+		for _, l := range returnedLeaves(api, 0, 0) {
+			leaves = append(leaves, phiLeaves(l)...)
+		}
+		for _, leaf := range leaves {
+			if an.IsNilConst(leaf) || leaf == ssa.Value(src) {
+				continue
+			}
+			good := false
+			if ex, ok := leaf.(*ssa.Extract); ok && ex.Index == 0 {
+				if c, ok := ex.Tuple.(*ssa.Call); ok && an.IsCallTo(c, importsProcess) {
+					good = true
+				}
+			}
+			r.Check(good, short(api)+"|library-always-processes-imports", leaf.Pos(), "the bytes File.Apply returns for a rewritten file are the result of imports.Process, as in the command's default mode (got %s)", an.Describe(leaf))
+		}
+	}
 	// cleanupFilePos siblings
 	cleanups := cleanupFuncs(r)
 	switch len(cleanups) {
